@@ -323,10 +323,10 @@ def run(ctx):
     rng = ctx.rng
     thorough = ctx.tier == "thorough"
     # 1. word-like ids (first: its violations are reported before those of the hostile class)
-    for i in range(ctx.budget(900, 24000)):
+    for i in range(ctx.budget(900, 9600)):
         g = G.graph(rng)
         n = len(g["nodes"])
-        every = n > 1 and (n <= 5 or (n == 6 and i % 8 == 0)) if thorough else (1 < n <= 5 and i % 6 == 0)
+        every = n > 1 and (n <= 5 or (n == 6 and i % 16 == 0)) if thorough else (1 < n <= 5 and i % 6 == 0)
         case = {"kind": "graph", "ids": "word", "graph": g, "qseed": rng.randrange(10 ** 9),
                 "orders": "all" if every else G.sample_orders(rng, n, 4),
                 "nqueries": 3 if every else 8,
@@ -336,7 +336,7 @@ def run(ctx):
         execute(ctx, case)
         account(ctx, case)
     # 2. hostile ids (separate class; DESIGN F-C02-1)
-    for _ in range(ctx.budget(300, 6400)):
+    for _ in range(ctx.budget(300, 3200)):
         g = G.graph(rng, max_nodes=8)
         flavours = G.make_hostile(rng, g)
         if not flavours:
